@@ -5,8 +5,8 @@
 From Coq Require Import ZArith List Bool String.
 Import ListNotations.
 From Coq Require Extraction ExtrOcamlBasic.
-From Mx Require ModInt Expr Simp EvalAbs X86Types X86Dis Ppc Wf Asm Operand.
-From MxGen Require X86Tables PpcTables.
+From Mx Require ModInt Expr Simp EvalAbs X86Types X86Dis Ppc Wf Asm Operand Att.
+From MxGen Require X86Tables PpcTables AttTables.
 Extraction Language OCaml.
 Definition mx_binop_apply := ModInt.binop_apply.
 Definition mx_unop_apply := ModInt.unop_apply.
@@ -47,5 +47,9 @@ Definition mx_norm32 := Operand.norm32.
 Definition mx_dict_add := Operand.dict_add.
 Definition mx_dict_sub := Operand.dict_sub.
 Definition mx_dict_scale := Operand.dict_scale.
-Extraction "model.ml" mx_binop_apply mx_unop_apply mx_cmp_apply mx_norm mx_size mx_eval mx_expr_eqb mx_copy mx_visit mx_replace_expr mx_canonize mx_get_r mx_get_w mx_get_expr_ids mx_match_expr mx_key_expr mx_key_cmp mx_simp mx_simp1 mx_eval_expr mx_eval_instr mx_simpF mx_pool_set mx_dis mx_flow_flags mx_getnextflow mx_getdstflow mx_x86_tables mx_claimants mx_reencode mx_ppc_classes mx_violated mx_check_imm_size mx_emit mx_ikinds mx_norm32 mx_dict_add mx_dict_sub mx_dict_scale
+Definition mx_to_att := Att.mnemo_to_att AttTables.att_tables.
+Definition mx_from_att := Att.mnemo_from_att AttTables.att_tables.
+Definition mx_mkai := Att.mkai.
+Definition mx_szks := [Att.Su08; Att.Su16; Att.Su32; Att.Sf32; Att.Sf64; Att.Sf80; Att.Sxmm; Att.Sother].
+Extraction "model.ml" mx_binop_apply mx_unop_apply mx_cmp_apply mx_norm mx_size mx_eval mx_expr_eqb mx_copy mx_visit mx_replace_expr mx_canonize mx_get_r mx_get_w mx_get_expr_ids mx_match_expr mx_key_expr mx_key_cmp mx_simp mx_simp1 mx_eval_expr mx_eval_instr mx_simpF mx_pool_set mx_dis mx_flow_flags mx_getnextflow mx_getdstflow mx_x86_tables mx_claimants mx_reencode mx_ppc_classes mx_violated mx_check_imm_size mx_emit mx_ikinds mx_to_att mx_from_att mx_mkai mx_szks mx_norm32 mx_dict_add mx_dict_sub mx_dict_scale
   BinInt.Z.add BinInt.Z.mul BinInt.Z.opp BinInt.Z.div BinInt.Z.modulo.
